@@ -1,4 +1,5 @@
 import ElexModel.Core.NatSum
+import ElexModel.Gen.C08
 import ElexModel.Lemmas.Num
 import Mathlib.Tactic.FieldSimp
 
@@ -207,5 +208,54 @@ def exCs : List Contest := [
 
 example : natsum exCs 20 (1/2) 3 = (28, 23, 28) := by decide +kernel
 example : ∀ c ∈ exCs, 0 ≤ c.w := by decide
+
+end ElexModel.NatSum
+
+/-! ### bridge: `get_national_summary_estimates` (default mode) as it is in `/repo/src` on this run -/
+
+namespace ElexModel.NatSum
+open ElexModel ElexModel.Boot
+
+theorem boolToRat_eq (b : Bool) : boolToRat b = b01 b := rfl
+
+/-- per contest the source's `potential_losses` / `potential_gains` (clamp, race-call rule, stop rule, in this order) are
+    the model's `loss` / `gain` -/
+theorem bridge_loss_gain (lq : ℚ) (c : Contest) :
+    loss lq c = Gen.C08.potential_loss c.pred (fracWhere (dist c) (fun x => decide (0 < x)))
+        (fracWhere (dist c) (fun x => decide (x < 0))) lq (decide (c.call = Call.none)) c.stop ∧
+    gain lq c = Gen.C08.potential_gain c.pred (fracWhere (dist c) (fun x => decide (0 < x)))
+        (fracWhere (dist c) (fun x => decide (x < 0))) lq (decide (c.call = Call.none)) c.stop := by
+  unfold loss gain Gen.C08.potential_loss Gen.C08.potential_gain
+  unfold lowerState upperState predState
+  simp only [boolToRat_eq, gt_iff_lt]
+  generalize decide (lq < fracWhere (dist c) fun x => decide (0 < x)) = bp
+  generalize decide (lq < fracWhere (dist c) fun x => decide (x < 0)) = bn
+  generalize decide (0 < c.pred) = ps
+  generalize hcall : decide (c.call = Call.none) = bc
+  have hc : (c.call = Call.none) ↔ bc = true := by rw [← hcall]; simp
+  simp only [hc]
+  cases bp <;> cases bn <;> cases ps <;> cases bc <;> cases c.stop <;> simp [b01, rmax_eq]
+
+theorem bridge_pred_state (c : Contest) : Gen.C08.pred_state c.pred = b01 (predState c) := rfl
+
+/-- the realisations the correlation rule counts are `pred − (d1 − d2)` -/
+theorem bridge_dist (c : Contest) : dist c = (c.d1.zip c.d2).map (fun p => Gen.C08.pred_margin_draw c.pred p.1 p.2) := rfl
+
+/-- the three reported numbers -/
+theorem bridge_natsum (cs : List Contest) (base alpha : ℚ) (B : ℕ) :
+    natsum cs base alpha B =
+      (Gen.C08.agg_pred (predVal cs) base,
+       Gen.C08.agg_lower (predVal cs) (sumR (cs.map (fun c => c.w * loss (lowerQ alpha B) c))) base,
+       Gen.C08.agg_upper (predVal cs) (sumR (cs.map (fun c => c.w * gain (lowerQ alpha B) c))) base) := rfl
+
+/-- weights are matched to contests by sorted key, rejected unless one per contest, and the summary reads nothing from the
+    model object but the draws, the prediction, the calls / stops and the settings -/
+theorem bridge_shape :
+    Gen.C08.weights_matching = ["sorted(nat_sum_data_dict.items())", "np.asarray([x[1] for x in nat_sum_data_dict_sorted]).reshape(-1, 1)"] ∧
+    Gen.C08.size_check = ["len(nat_sum_data_dict) != self.divided_error_B_1.shape[0]"] ∧
+    Gen.C08.returned = ["{'margin': [agg_pred, agg_lower, agg_upper]}"] ∧
+    Gen.C08.state_read = ["self.B", "self.T", "self.aggregate_pred_margin", "self.called_contests", "self.divided_error_B_1",
+      "self.divided_error_B_2", "self.hard_threshold", "self.national_summary_correlation", "self.stop_model_call"] :=
+  ⟨rfl, rfl, rfl, rfl⟩
 
 end ElexModel.NatSum
